@@ -521,7 +521,7 @@ func TestVerifC39(t *testing.T) { //nolint:cyclop
 	lf := logging.NewDefaultLoggerFactory()
 	lf.DefaultLogLevel = logging.LogLevelDisabled
 	env := &c39Env{t: t, c: c}
-	env.api = vNewAPI(t, vAPIOpts{setting: func(s *SettingEngine) { s.LoggerFactory = lf }})
+	env.api = vNewAPI(t, vAPIOpts{virtualNet: true, setting: func(s *SettingEngine) { s.LoggerFactory = lf }})
 	for _, dst := range []*Certificate{&env.other, &env.second} {
 		sk, err := ecdsa.GenerateKey(elliptic.P256(), rand.Reader)
 		if err != nil {
